@@ -13,7 +13,7 @@ SPEC = {
             "(c) count(graph, in_tree, needle, num) on open and closed trees: a proposed candidate is valid for the root label, "
             "keeps all nodes of in_tree by id, has exactly num needle nodes and no open leaf that can still derive a needle. "
             "distinct = distinct (grammar, start/needle, target, outcome class, tree shape bucket)",
-    "minimum": {"quick": {"fixed_length_judged": 800, "fixed_length_trees": 400, "count_calls": 800, "count_proposals_judged": 150,
+    "minimum": {"quick": {"fixed_length_judged": 400, "fixed_length_trees": 250, "count_calls": 500, "count_proposals_judged": 150,
                           "model_values_judged": 30},
                 "thorough": {"fixed_length_judged": 40000, "count_calls": 20000, "count_proposals_judged": 3000, "model_values_judged": 600}},
     "assumptions": ["R1 validity and reachability", "non-termination is bounded by a watchdog and counted as inconclusive "
